@@ -174,6 +174,27 @@ def _judge_simplify(expr, r, cls, case, acc, bad):
         acc.viol('simplify:%s:offset' % cls, 'simplify_unit(%r) = %r has offset %r, expected %r' %
                  (expr, s, u2._offset, float(r.offset)), case, new_case=not (bad or out))
         out = True
+    if not out:
+        # the same statement through the public conversion API: the original string and the simplified string
+        # are the same unit, so the conversion between them is the identity (both factors carry <= ops roundings;
+        # offset = o - o * f_s / f_e)
+        acc.count('obs:simplify:convert-to-simplified')
+        try:
+            comp = U.is_compatible(expr, s)
+            fac, off = U.unit_conversion(expr, s)
+            back = U.convert_units(3.7, s, expr)
+        except Exception as e:
+            acc.viol('simplify:%s:conversion-to-simplified-raises-%s' % (cls, type(e).__name__),
+                     'simplify_unit(%r) = %r, converting between the two: %s' % (expr, s, str(e)[:160]), case,
+                     new_case=not bad)
+            return True
+        tol = (ops + 4) * EPS
+        if not comp or not _close(fac, 1.0, tol) or abs(off) > tol * abs(float(r.offset)) or \
+                not _close(back, 3.7, (3.7 + 2 * abs(float(r.offset))) * 2 * tol):
+            acc.viol('simplify:%s:conversion-to-simplified' % cls, 'simplify_unit(%r) = %r, but is_compatible=%s, '
+                     'unit_conversion=(%r, %r), 3.7 converted back = %r' % (expr, s, comp, fac, off, back), case,
+                     new_case=not bad)
+            out = True
     return out
 
 
@@ -386,14 +407,203 @@ def _same_dim_variant(rng, L, expr):
     return re.sub(r'(?<![\d.A-Za-z_])[A-Za-z_][A-Za-z0-9_]*', sub, expr)
 
 
+# ----------------------------------------------------------------------------------------------
+# roots (inverse-integer exponents) of radicands whose NAME is not a perfect power
+# ----------------------------------------------------------------------------------------------
+_ROOT_EXP = {2: ['0.5', '.5', '(1/2)', '(0.5)', '0.5', '0.5'], 3: ['(1/3)', '(1./3)', '(1/3.)'],
+             4: ['0.25', '(1/4)'], 5: ['0.2', '(1/5)'], 6: ['(1/6)']}
+_ROOT_EXP_NEG = {2: ['-0.5', '(-1/2)', '-.5', '(-0.5)'], 3: ['(-1/3)', '-(1/3)'], 4: ['-0.25', '(-1/4)'],
+                 5: ['-0.2'], 6: ['(-1/6)']}
+
+
+def _paren(e):
+    return '(' + e + ')' if any(ch in e for ch in '*/') else e
+
+
+def _atom(rng, L, feats, p_pref=0.3):
+    plain, pref = _atoms(L)
+    if rng.random() < p_pref:
+        feats.add('prefixed')
+        return rng.choice(pref)
+    return rng.choice(plain)
+
+
+def _completion(rng, L, x, r):
+    """An atom c and an exponent e with dim(x * c**e) a perfect r-th power (None if there is none)."""
+    plain, pref = _atoms(L)
+    px = L.evaluate(x).powers
+    cands = list(plain) + rng.sample(pref, 40)
+    rng.shuffle(cands)
+    exps = [1, -1, 2, -2][:2 if r == 2 else 4]
+    rng.shuffle(exps)
+    for c in cands:
+        pc = L.resolve(c).powers
+        if not any(pc):
+            continue
+        for e in exps:
+            if all((a + e * b) % r == 0 for a, b in zip(px, pc)):
+                return c, e
+    return None
+
+
+def gen_root_expr(rng, L, feats):
+    """A root whose radicand has a perfect-power DIMENSION but is written as a product / quotient of different
+    units (or carries a numeric constant / a leading `1/`), optionally embedded in a larger expression."""
+    feats.add('root-of-product')
+    r = rng.choice([2, 2, 2, 2, 3, 3, 4, 5, 6])
+    form = rng.random()
+    if form < 0.22:
+        # r different spellings of the same sub-expression: (ft*inch)**0.5, ((ft/s)*(inch/min))**0.5
+        feats.add('root:mixed-factors')
+        base = gen_expr(rng, L, rng.choice([0, 0, 1, 1, 2]), feats)
+        fs = [base] + [_same_dim_variant(rng, L, base) for _ in range(r - 1)]
+        rng.shuffle(fs)
+        rad = '*'.join(_paren(f) for f in fs)
+    elif form < 0.38:
+        # numerators and denominators collected: (ft*inch/(s*min))**0.5, (1/(s*min))**0.5
+        feats.add('root:mixed-fraction')
+        num = [_atom(rng, L, feats) for _ in range(rng.randrange(0, 3))]
+        den = [_atom(rng, L, feats) for _ in range(rng.randrange(1, 3))]
+        nums = [_same_dim_variant(rng, L, n) for n in num for _ in range(r)]
+        dens = [_same_dim_variant(rng, L, d) for d in den for _ in range(r)]
+        rng.shuffle(nums)
+        rng.shuffle(dens)
+        rad = ('*'.join(nums) if nums else '1') + '/' + _paren('*'.join(dens))
+        if len(dens) > 1 and rng.random() < 0.5:
+            rad = ('*'.join(nums) if nums else '1') + ''.join('/' + d for d in dens)
+    elif form < 0.72:
+        # derived units whose dimension completes to a perfect power: (J/kg)**0.5, (Pa/(kg/m**3))**0.5, (ha)**0.5
+        feats.add('root:derived')
+        n = rng.choice([1, 1, 2, 2, 3])
+        x = _atom(rng, L, feats)
+        for _ in range(n - 1):
+            x = x + rng.choice('*/') + _atom(rng, L, feats)
+        if rng.random() < 0.25:
+            x = _paren(x) + '**' + str(rng.choice([-1, 2, 3, -2]))
+        got = _completion(rng, L, x, r)
+        if got is None:
+            rad = x + '*' + _paren(x) + '**' + str(r - 1)
+        else:
+            c, e = got
+            tail = c if abs(e) == 1 else c + '**' + str(abs(e))
+            if e > 0:
+                rad = rng.choice([x + '*' + tail, tail + '*' + _paren(x)])
+            else:
+                rad = rng.choice([x + '/' + tail, _paren(x) + '/' + _paren(tail),
+                                  '1/' + _paren(tail + '/' + _paren(x))])
+    elif form < 0.86:
+        # numeric constants and reciprocals: (4*m**2)**0.5, (1/s**2)**0.5, (1e3/(N*s)**2)**0.5
+        feats.add('root:number')
+        b = _paren(gen_expr(rng, L, rng.choice([0, 0, 1]), feats))
+        k = rng.choice(['1', '1', '4', '2', '1e3', '0.25', '1.e-2', '1000', '27', '3.25', '1e-6'])
+        rad = rng.choice([k + '*' + b + '**%d' % r, k + '/' + b + '**%d' % r, b + '**%d' % r + '/' + k,
+                          k + '/' + b + '**%d' % (2 * r), b + '**-%d' % r + '*' + k])
+    else:
+        # a root inside a root / a product of roots: ((ft*inch)**0.5*m)**0.5, (ft*inch)**0.5*(yd*m)**0.5
+        feats.add('root:nested')
+        a = _atom(rng, L, feats)
+        inner = '(' + a + '*' + _same_dim_variant(rng, L, a) + ')**' + rng.choice(_ROOT_EXP[2])
+        c = _same_dim_variant(rng, L, a)
+        k = rng.randrange(3)
+        if k == 0:
+            rad, r = rng.choice([inner + '*' + c, c + '*' + inner]), 2
+        elif k == 1:
+            rad, r = inner + '*' + c + '**3', 4
+        else:
+            rad, r = inner + '*' + _paren(gen_expr(rng, L, 1, feats)) + '**2/' + c, 2
+    if rng.random() < 0.3:
+        feats.add('root:negative')
+        e = '(' + rad + ')**' + rng.choice(_ROOT_EXP_NEG[r])
+    else:
+        e = '(' + rad + ')**' + rng.choice(_ROOT_EXP[r])
+    q = rng.random()
+    if q < 0.35:
+        # embedded in a larger expression
+        feats.add('root:embedded')
+        o = _paren(gen_expr(rng, L, rng.choice([0, 0, 1]), feats))
+        e = rng.choice([e + '*' + o, o + '*' + e, e + '/' + o, o + '/' + e, '(' + e + ')**2', '(' + e + ')**-1',
+                        '1/' + e, '1e3*' + e, e + '*' + e])
+    return e
+
+
+def _si_string(L, r):
+    """The unit of the reference value r written in base units (independent of the implementation's names)."""
+    num = [n if p == 1 else '%s**%d' % (n, p) for n, p in zip(L.base_names, r.powers) if p > 0]
+    den = [n if p == -1 else '%s**%d' % (n, -p) for n, p in zip(L.base_names, r.powers) if p < 0]
+    return ('*'.join(num) if num else '1') + ''.join('/' + d for d in den)
+
+
+def _judge_declared(e, r, e2, r2, cls, case, acc):
+    """The same unit seen through a model: variables DECLARED in `e` (IndepVarComp output, ExecComp output)
+    are stored under simplify_unit(e); reading them back in other units and passing them through a connection
+    must give the reference conversion."""
+    import numpy as np
+    import openmdao.api as om
+    L = _lib()
+    t = _si_string(L, r)
+    rt = L.evaluate(t)
+    v = case.get('value', 3.7)
+    # tolerance: conversions now start from the simplified strings, whose factors were just shown to agree with
+    # the reference within (ops_e + ops_simplified + 6) roundings
+    def tol_for(x, rb):
+        ref, tol, scale = convert(x, r, rb)
+        return ref, tol + (2 * r.ops + 2 * rb.ops + 24) * EPS * scale
+    try:
+        refs = {'native': (v, 4 * EPS * abs(v)), 't': tol_for(v, rt), 'e': tol_for(v, r), 'y': tol_for(2.0 * v, rt),
+                'e2': tol_for(v, r2) if e2 is not None else None}
+        if not all(math.isfinite(x[0]) and abs(x[0]) < 1e300 for x in refs.values() if x is not None):
+            raise OverflowError
+    except (OverflowError, ZeroDivisionError):
+        acc.count('guard:declared-reference-out-of-range')
+        return False
+    acc.count('obs:declared')
+
+    def val(name, **kw):
+        return float(np.ravel(p.get_val(name, **kw))[0])
+    p = om.Problem()
+    try:
+        ivc = p.model.add_subsystem('ivc', om.IndepVarComp())
+        ivc.add_output('a', val=v, units=e)
+        # x: an input in base units fed by the declared variable; y = 2 * z is a NUMBER declared in `e`
+        p.model.add_subsystem('c', om.ExecComp(['y=2.0*z', 'w=x'], x={'units': t, 'val': 1.0}, w={'units': t},
+                                               z={'val': v}, y={'units': e, 'val': 1.0}))
+        p.model.connect('ivc.a', 'c.x')
+        p.setup()
+        p.run_model()
+        meta = p.model.get_io_metadata(metadata_keys=['units'], return_rel_names=False)
+        obs = [('get_val(ivc.a) in the declared units', val('ivc.a'), refs['native']),
+               ('get_val(ivc.a, units=%r)' % t, val('ivc.a', units=t), refs['t']),
+               ('get_val(ivc.a, units=%r)' % e, val('ivc.a', units=e), refs['e']),
+               ('input c.x [%s] connected to ivc.a' % t, val('c.x'), refs['t']),
+               ('get_val(c.y, units=%r) of y=%r [%s]' % (t, 2.0 * v, e), val('c.y', units=t), refs['y'])]
+        if e2 is not None:
+            obs.append(('get_val(ivc.a, units=%r)' % e2, val('ivc.a', units=e2), refs['e2']))
+        stored = [meta['ivc.a']['units'], meta['c.y']['units']]
+    except Exception as ex:
+        acc.viol('declared:%s:raises-%s' % (cls, type(ex).__name__), 'IndepVarComp/ExecComp output declared with '
+                 'units=%r, read back / connected in %r: %s' % (e, t, str(ex)[:200]), case)
+        return True
+    finally:
+        try:
+            p.cleanup()
+        except Exception:
+            pass
+    for what, got, (ref, tol) in obs:
+        if not _close(got, ref, tol):
+            acc.viol('declared:%s:value' % cls, 'variable declared with units=%r (stored as %r): %s = %r, '
+                     'reference %r (tol %.3g)' % (e, stored[0], what, got, ref, tol), case)
+            return True
+    return False
+
+
 def judge_composite(case, acc):
     import openmdao.utils.units as U
     L = _lib()
     e = case['expr']
     feats = sorted(case.get('feats', []))
     # one input-class word for the key: the most specific construct the expression contains
-    cls = next((f for f in ('da-prefix', 'root', 'number', 'unity', 'power', 'quotient', 'prefixed', 'paren')
-                if f in feats), 'plain')
+    cls = next((f for f in ('da-prefix', 'root-of-product', 'root', 'number', 'unity', 'power', 'quotient',
+                            'prefixed', 'paren') if f in feats), 'plain')
     try:
         r = L.evaluate(e)
     except RefError as ex:
@@ -459,11 +669,25 @@ def judge_composite(case, acc):
                              (e, e2, got, ref), case, fp=fp, new_case=not bad)
                     bad = True
     scls = 'plain'
-    if 'root' in feats:
+    if 'root-of-product' in feats:
+        scls = 'root-of-product'
+    elif 'root' in feats:
         scls = 'root'
     elif 'number' in feats:
         scls = 'numeric-constant'
     bad = _judge_simplify(e, r, scls, case, acc, bad) or bad
+    if case.get('declare') and not bad:
+        if not any(r.powers):
+            acc.count('guard:declared-dimensionless-not-modelled')
+        else:
+            try:
+                r2 = L.evaluate(e2) if e2 else None
+                if r2 is not None and not (r2.powers == r.powers and r2.q > 0 and r2.mag <= 250 and
+                                           abs(r.log10() - r2.log10()) <= 250):
+                    r2 = None
+            except (RefError, ZeroDivisionError, OverflowError):
+                r2 = None
+            bad = _judge_declared(e, r, e2 if r2 is not None else None, r2, scls, case, acc)
     if not bad:
         acc.ok(fp, sample=case if acc.judged % 997 == 0 else None)
 
@@ -601,6 +825,13 @@ def shards(tier, seed):
     ncomp, per = (8, 330) if tier == 'quick' else (24, 1200)
     for k in range(ncomp):
         out.append({'kind': 'composite', 'seed': seed * 100003 + k, 'n': per})
+    nroot, perr = (8, 260) if tier == 'quick' else (24, 1000)
+    for k in range(nroot):
+        out.append({'kind': 'roots', 'seed': seed * 100003 + 9000 + k, 'n': perr})
+    # the same expressions declared as units of model variables (own shards: only these import openmdao.api)
+    ndecl, perd = (4, 150) if tier == 'quick' else (8, 600)
+    for k in range(ndecl):
+        out.append({'kind': 'declared', 'seed': seed * 100003 + 13000 + k, 'n': perd})
     nord, pero = (4, 250) if tier == 'quick' else (12, 1000)
     for k in range(nord):
         out.append({'kind': 'order', 'seed': seed * 100003 + 5000 + k, 'n': pero})
@@ -638,6 +869,20 @@ def run_shard(shard, acc):
             e = gen_expr(rng, L, rng.randrange(1, 5), feats)
             case = {'kind': 'composite', 'expr': e, 'feats': sorted(feats),
                     'expr2': _same_dim_variant(rng, L, e)}
+            judge_composite(case, acc)
+    elif kind in ('roots', 'declared'):
+        rng = random.Random(shard['seed'])
+        for i in range(shard['n']):
+            feats = set()
+            if kind == 'declared' and i % 3 == 0:
+                e = gen_expr(rng, L, rng.randrange(1, 4), feats)
+            else:
+                e = gen_root_expr(rng, L, feats)
+            case = {'kind': 'composite', 'expr': e, 'feats': sorted(feats),
+                    'expr2': _same_dim_variant(rng, L, e)}
+            if kind == 'declared':
+                case['declare'] = True
+                case['value'] = rng.choice([3.7, -1.0, 1e6, 2.5e-3])
             judge_composite(case, acc)
     elif kind == 'order':
         rng = random.Random(shard['seed'])
